@@ -197,8 +197,9 @@ def check(chk, repo):
     from ..common import check_model_premises
     check_model_premises(rep, repo)
     # a query's identity (its row of a pre-computed matrix) is what the caller says it is, never its batch position
-    from .c10 import check_constructor_forwarding, check_row_ids
+    from .c10 import check_constructor_forwarding, check_model_forwarding, check_row_ids
     check_row_ids(chk, rep, repo, only={"Subgraph._build"}, floor=1)
+    chk.floor("query-graph constructions in predict", check_model_forwarding(rep, repo, ("predict",)), 3)
     check_constructor_forwarding(rep, repo)
     chk.assumptions += ["effect summaries resolve callees by method name (over-approximation)",
                         "a fresh Subgraph/KNNSubgraph built inside predict shares no state with the model "
